@@ -86,4 +86,19 @@ def observe (r : Resp) : Obs :=
       | some l, some n => if l = n then .ok else .wrong
       | some _, none => .wrong }
 
+/-- Range requests on static files (both executions observed): partial content, the bytes
+are the requested slice of the representation named, Content-Length absent or correct, same
+Content-Range, and the coding relation of `verdict`. -/
+def rangeVerdict (ae : Bytes) (g p : Obs) (gRange pRange : String) (gSlice pSlice : Bool) : String :=
+  if p.status != 206 || g.status != 206 then "bad:status:satisfiable range not answered 206"
+  else if !pSlice || !gSlice then "bad:decoded-differs:the body is not the requested slice of the representation"
+  else if p.cl == .wrong || g.cl == .wrong then "bad:content-length:Content-Length does not match the partial body"
+  else if gRange != pRange then "bad:content-range:Content-Range changed"
+  else if !siblingOffered ae p.ce then "bad:not-offered:precompressed sibling in a coding the client did not offer"
+  else if g.ce = p.ce then "ok"
+  else if !unencoded p.ce then "bad:double-encoding:an already encoded response was encoded again or its Content-Encoding rewritten"
+  else if g.ce != Coding.gzip.name then "bad:ce-mismatch:Content-Encoding does not name the coding applied"
+  else if !offersGzip ae then "bad:not-offered:gzip applied although the client did not offer it"
+  else "ok"
+
 end Casket.GzipSpec
